@@ -112,6 +112,10 @@ pub const SITES: &[&str] = &[
     "pg.cache.size.add",
     "pg.caches.pre_lock",
     "pg.caches.post_unlock",
+    // every access to the pools' counters (cfg-gated shim atomics in deadpool)
+    "sync.atomic.pre_load",
+    "sync.atomic.pre_store",
+    "sync.atomic.pre_rmw",
 ];
 
 /// Sites that lie inside a lock region of the code under test.
@@ -182,6 +186,8 @@ struct Tls {
     site_yields: Vec<u64>,
     /// last site each actor passed (logged even when the site is disabled)
     last_site: Vec<Option<&'static str>>,
+    /// pool mutexes (shim type) currently held by each actor
+    held_locks: Vec<u32>,
     wakers: Vec<Arc<ActorWaker>>,
     hasher: Hasher,
     trace_on: bool,
@@ -206,6 +212,7 @@ thread_local! {
         site_hits: vec![0; SITES.len()],
         site_yields: vec![0; SITES.len()],
         last_site: Vec::new(),
+        held_locks: Vec::new(),
         wakers: Vec::new(),
         hasher: Hasher::default(),
         trace_on: false,
@@ -316,6 +323,14 @@ pub fn point(site: &'static str) {
         };
         t.site_hits[idx] += 1;
         let cur = t.cur;
+        if site == "sync.mutex.post_unlock" {
+            t.held_locks[cur] = t.held_locks[cur].saturating_sub(1);
+        }
+        // a counter update inside a critical section is not a preemption point of its own:
+        // whoever needs the lock cannot run anyway, and the rest is covered by the lock sites
+        if t.held_locks[cur] > 0 && site.starts_with("sync.atomic.") {
+            return false;
+        }
         t.last_site[cur] = Some(site);
         let step = t.step;
         t.site_log.push((step, cur, idx as u16));
@@ -352,6 +367,13 @@ fn hook_lock_point(site: &'static str, would_block: &dyn Fn() -> bool) {
     }
     // passed: the lock is free and is taken right after (no yield in between)
     if cur != CONTROLLER && !suppressed() {
+        if site == "sync.mutex.lock" {
+            tls(|t| {
+                if let Some(h) = t.held_locks.get_mut(cur) {
+                    *h += 1;
+                }
+            });
+        }
         if let Some(idx) = site_index(site) {
             tls(|t| {
                 let step = t.step;
@@ -780,6 +802,7 @@ pub fn begin_run(knobs: &Knobs, n_actors_hint: usize, trace: bool, stack_size: u
         t.yielders.clear();
         t.wakers.clear();
         t.last_site.clear();
+        t.held_locks.clear();
         for e in t.site_enabled.iter_mut() {
             *e = false;
         }
@@ -846,6 +869,7 @@ impl Sim {
             t.pending_counts.push(0);
             t.wakers.push(waker.clone());
             t.last_site.push(None);
+            t.held_locks.push(0);
             let sz = t.stack_size;
             t.stacks
                 .pop()
